@@ -149,6 +149,9 @@ Apply(op, a, b) ==
                    ELSE IF a.t = "str" /\ b.t = "int" THEN Val(S(a.s \o ToString(b.v)))
                    ELSE IF a.t = "int" /\ b.t = "str" THEN Val(S(ToString(a.v) \o b.s)) ELSE Unspec
 
+CompoundOps == {"+", "-", "*", "/", "%", "**", "&", "|", "^", "<<", ">>", "."}
+SitePool == {I(0), I(5), I(-3), S(""), S("a"), S("10"), B(TRUE), B(FALSE), NullV, F(1, 1), F(2, 0)}
+
 \* ---------------------------------------------------------------- behaviour: one state per case
 VARIABLES kind, op, a, b, done
 vars == <<kind, op, a, b, done>>
@@ -157,8 +160,11 @@ Init == /\ done = FALSE
         /\ \/ (kind = "binop" /\ op \in BinOps /\ a \in Pool /\ b \in Pool)
            \/ (kind = "truthy" /\ op = "ctx" /\ a \in Pool /\ b = NullV)
            \/ (kind = "law" /\ op \in {"eq-sym", "ne-compl", "strict-compl", "spaceship"} /\ a \in Pool /\ b \in Pool)
+           \* an operator has ONE meaning wherever it is written: as a binary expression and as the compound
+           \* assignment x op= b on a variable, a list element, a keyed element and an object property
+           \/ (kind = "site" /\ op \in CompoundOps /\ a \in SitePool /\ b \in SitePool)
 
-Expect == CASE kind = "binop" -> Apply(op, a, b)
+Expect == CASE kind \in {"binop", "site"} -> Apply(op, a, b)
             [] kind = "truthy" -> IF Anchored(a) THEN Val(B(Truthy(a))) ELSE Unspec
             [] kind = "law" -> Val(B(TRUE))
 Answer == /\ ~done /\ done' = TRUE
